@@ -167,3 +167,56 @@ pub fn run_e(toks: &[&str], fails: &mut Vec<(String, String)>) -> String {
         Err(_) => "panic".into(),
     }
 }
+
+/// `BD <n_words> <seed>` (used as `BIG BD …`, oracle-only): a predictor whose dictionary has `n_words` entries (more than
+/// 2^16; in the thorough tier enough to make the serialised form exceed 16 MiB) is serialised with trailing bytes,
+/// deserialised, and compared with the original on a few texts
+pub fn run_bd(n_words: usize, seed: u64, fails: &mut Vec<(String, String)>) -> String {
+    use vaporetto::{Model, WordWeightRecord};
+    let mut r = crate::util::Rng::new(seed ^ 0xBD);
+    let alpha: Vec<char> = "あいうえおかきくけこ東京都火星猫社長".chars().collect();
+    let res = catch(|| {
+        let base = AbsModel { char_w: 2, type_w: 2, bias: -3, char_ngrams: vec![("あ".into(), vec![1, -2, 3, 4])], ..Default::default() };
+        let mut model = base.load().map_err(|e| format!("base model: {e}"))?;
+        let mut seen = std::collections::HashSet::new();
+        let mut recs = vec![];
+        while recs.len() < n_words {
+            let w: String = (0..4 + r.below(3)).map(|_| *r.pick(&alpha)).collect();
+            if !seen.insert(w.clone()) {
+                continue;
+            }
+            let n = w.chars().count();
+            let ws: Vec<i32> = (0..=n).map(|_| r.range(-30, 30) as i32).collect();
+            recs.push(WordWeightRecord::new(w, ws, String::new()).map_err(|e| e.to_string())?);
+        }
+        let texts: Vec<String> = (0..4).map(|k| format!("{}{}あい", recs[k * 7].get_word(), recs[recs.len() - 1 - k].get_word())).collect();
+        model.replace_dictionary(recs);
+        let bytes = model.to_vec().map_err(|e| e.to_string())?;
+        let (m1, _) = Model::read_slice(&bytes).map_err(|e| e.to_string())?;
+        let p = Predictor::new(m1, false).map_err(|e| e.to_string())?;
+        let mut ser = p.serialize_to_vec().map_err(|e| format!("serialize_to_vec failed: {e}"))?;
+        let n_ser = ser.len();
+        ser.extend_from_slice(b"tail!");
+        let (q, rest) = unsafe { Predictor::deserialize_from_slice_unchecked(&ser) }
+            .map_err(|e| format!("deserialising the {n_ser} bytes that serialize_to_vec produced for a predictor with {n_words} dictionary words failed: {e}"))?;
+        if rest != b"tail!" {
+            return Err(format!("the bytes after the predictor came back as {rest:?}"));
+        }
+        for t in &texts {
+            let mut a = Sentence::from_raw(t.clone()).map_err(|e| e.to_string())?;
+            let mut b = Sentence::from_raw(t.clone()).map_err(|e| e.to_string())?;
+            p.predict(&mut a);
+            q.predict(&mut b);
+            if a.boundary_scores() != b.boundary_scores() || a.boundaries() != b.boundaries() {
+                return Err(format!("on {t:?} the deserialised predictor scores {:?}, the original {:?}", b.boundary_scores(), a.boundary_scores()));
+            }
+        }
+        Ok::<(), String>(())
+    });
+    match res {
+        Ok(Ok(())) => {}
+        Ok(Err(e)) => fails.push(("C14".into(), e)),
+        Err(e) => fails.push(("C14".into(), format!("panic with a {n_words}-word dictionary: {e}"))),
+    }
+    "bd".into()
+}
